@@ -215,6 +215,30 @@ pub fn lw_pool(quick: bool) -> Vec<LwSpec> {
         let cfg = LwCfg { latency: 2, ..wide.clone() };
         v.push(sp(&format!("bulk.long-stream.{}", name), &cfg, &s, env, if quick { 0 } else { 1 }));
     }
+    // F14: one packet (or one fragment of it) is lost again and again for a while - every frame that carries it - while everything else
+    // gets through: the head of a transfer against a small receive allocation (the packets behind it are acknowledged frame by frame but
+    // the receiver cannot release them), and the second fragment of a two-fragment packet while acknowledgements are delayed past the
+    // resend time of the first (a spurious retransmission, both copies acknowledged)
+    {
+        let ops: Vec<Op> = (0..40usize).map(|i| send(i / 10, 0, (i % 3) as u8, if i % 4 == 3 { Persistent } else { Reliable }, 1300 + (i % 5) * 30)).collect();
+        let s = Arc::new(ScriptInfo::new(ops));
+        let mut env = env_live(0, 4);
+        env.fates = &[Fate::Deliver, Fate::Drop]; env.deltas = &[20];
+        for until in [60usize, 200] {
+            let cfg = LwCfg { rx_alloc: [1_000_000, 8 * FRAG], kill: Some((0, None, until)), ..wide.clone() };
+            v.push(sp(&format!("targeted-loss.head-of-transfer.{}", until), &cfg, &s, env.clone(), if quick { 0 } else { 1 }));
+        }
+        for (name, size, frag_no) in [("second-of-two", 2 * FRAG, 1u16), ("last-of-three", 2 * FRAG + 100, 2), ("first-of-two", 2 * FRAG - 7, 0)] {
+            let ops: Vec<Op> = vec![send(0, 0, 0, Reliable, size), send(1, 0, 1, Unreliable, 30), send(3, 0, 0, Reliable, 40)];
+            let s = Arc::new(ScriptInfo::new(warm(&ops, 12)));
+            let mut env = env_live(12, 6);
+            env.fates = &[Fate::Deliver, Fate::Delay3, Fate::Delay6, Fate::Dup]; env.deltas = &[20];
+            for until in [12 + 10usize, 12 + 40] {
+                let cfg = LwCfg { kill: Some((if s.ops.iter().any(|o| o.side == 1) { 2 } else { 1 }, Some(frag_no), until)), ..w4.clone() };
+                v.push(sp(&format!("targeted-loss.fragment.{}.{}", name, until), &cfg, &s, env.clone(), if quick { 1 } else { 2 }));
+            }
+        }
+    }
     // F11: exactly one packet window (4) of small packets, one per round, every script over 2 channels x {U, R, P}, with up to three
     // frames lost: the window is exactly full while several packets are missing, and reopens piecewise
     let four = scripts_upto(4, &[0, 1], &[Unreliable, Reliable, Persistent], &[40], &[1]);
